@@ -133,9 +133,12 @@ func (c13) Run(ctx *RunCtx) {
 	if twoDocs || (!enumerated && c.Bool("two-docs")) {
 		ndocs = 2
 	}
+	rev := []int{0, 0}
+	final := []string{"", ""}
 	for i := 0; i < ndocs; i++ {
 		version[i] = 1
 		open[i] = true
+		final[i] = StampText(i+1, 1, extras[i])
 		d.Notify("textDocument/didOpen", J{"textDocument": J{"uri": uris[i], "languageId": "hledger", "version": 1, "text": StampText(i+1, 1, extras[i])}})
 		ctx.T("didOpen d%d v1", i+1)
 	}
@@ -162,12 +165,21 @@ func (c13) Run(ctx *RunCtx) {
 		}
 		kind := 0
 		if !enumerated {
-			kind = c.Weighted("burst-kind", []int{6, 2, 1})
+			kind = c.Weighted("burst-kind", []int{6, 2, 1, 3})
 		}
 		switch kind {
+		case 3:
+			// the text changes, its diagnostics do not: same marker, one more comment line
+			rev[i]++
+			text := StampText(i+1, version[i], extras[i]) + strings.Repeat("; rev\n", rev[i])
+			final[i] = text
+			d.Notify("textDocument/didChange", J{"textDocument": J{"uri": uris[i], "version": 1000 + rev[i]}, "contentChanges": []J{{"text": text}}})
+			ctx.T("didChange d%d: same version v%d, revision %d (diagnostics unchanged)", i+1, version[i], rev[i])
 		case 0, 1:
 			version[i]++
+			rev[i] = 0
 			text := StampText(i+1, version[i], extras[i])
+			final[i] = text
 			change := J{"text": text}
 			if kind == 1 {
 				change["range"] = rng(0, 0, 1000, 0)
@@ -177,7 +189,9 @@ func (c13) Run(ctx *RunCtx) {
 		case 2:
 			d.Notify("textDocument/didClose", J{"textDocument": docID(uris[i])})
 			version[i]++
-			d.Notify("textDocument/didOpen", J{"textDocument": J{"uri": uris[i], "languageId": "hledger", "version": version[i], "text": StampText(i+1, version[i], extras[i])}})
+			rev[i] = 0
+			final[i] = StampText(i+1, version[i], extras[i])
+			d.Notify("textDocument/didOpen", J{"textDocument": J{"uri": uris[i], "languageId": "hledger", "version": version[i], "text": final[i]}})
 			ctx.T("didClose + didOpen d%d -> v%d", i+1, version[i])
 		}
 		if !enumerated {
@@ -263,6 +277,42 @@ func (c13) Run(ctx *RunCtx) {
 	for _, u := range uris {
 		if !sort.IntsAreSorted(seqs[u]) {
 			ctx.Stats.Inc("probe:publish-order-differs-from-version-order")
+		}
+	}
+	// second oracle: the last diagnostics of every open document equal those a
+	// fresh sequential server publishes for the final texts
+	lastPub := func(out []simwire.Msg) map[string]string {
+		m := map[string]string{}
+		for i := range out {
+			if out[i].Method == "textDocument/publishDiagnostics" {
+				var p struct {
+					URI         string          `json:"uri"`
+					Diagnostics json.RawMessage `json:"diagnostics"`
+				}
+				json.Unmarshal(out[i].Params, &p)
+				m[p.URI] = canon(p.Diagnostics)
+			}
+		}
+		return m
+	}
+	if !ctx.Race && len(ctx.Violations) == 0 {
+		spec := RefSpec{Env: env.Clone(), Init: InitParams(root, false, false, nil), Initialized: true}
+		for i := 0; i < ndocs; i++ {
+			if open[i] {
+				spec.Docs = append(spec.Docs, RefDoc{URI: uris[i], Text: final[i]})
+			}
+		}
+		ref := StartRef(ctx, spec)
+		ref.D.Quiesce()
+		want := lastPub(ref.D.Sess.Out)
+		ref.Close()
+		d.Resume()
+		got := lastPub(d.Sess.Out)
+		for i := 0; i < ndocs; i++ {
+			if open[i] && got[uris[i]] != want[uris[i]] {
+				fail("final-diagnostics-differ-from-latest-content", fmt.Sprintf("the last diagnostics published for d%d are %s; a fresh server given the final text publishes %s", i+1, trunc(got[uris[i]], 300), trunc(want[uris[i]], 300)))
+				return
+			}
 		}
 	}
 	for i := 0; i < ndocs; i++ {
